@@ -53,7 +53,11 @@ def shards(tier, seed):
     out = []
     scen = QUICK_SCENARIOS if tier == "quick" else list(SCENARIOS)
     for kind in THREAD_USABLE:
-        for sc in scen:
+        kscen = scen
+        if tier == "quick" and kind in ("xor", "fernet"):
+            # the encrypting variants share every line of the file cache but encode/decode: a few scenarios on every change
+            kscen = ["same_query", "three_tasks_same_text", "warm_read_vs_remove", "bytes"]
+        for sc in kscen:
             out.append({"kind": kind, "scenario": sc, "bound": 2 if tier == "quick" else 3,
                         "budget": 40 if tier == "quick" else 300})
         # the same evaluations arriving through the web service (a threaded server calls serve() per request)
@@ -184,7 +188,7 @@ def run_scenario(env, kind, scenario, scratch, bound, budget, viol, stats, only_
 
         policy_box[0] = policy
         try:
-            for _ in range(max(10, budget) if file_backed else max(5, budget // 4)):
+            for _ in range(max(10, budget if stats.get("tier") == "thorough" else budget // 2) if file_backed else max(5, budget // 4)):
                 yield run_schedule([])
         finally:
             policy_box[0] = None
@@ -192,9 +196,9 @@ def run_scenario(env, kind, scenario, scratch, bound, budget, viol, stats, only_
         # its store of K, task b is run k yield points into its own store of K, then a completes, then b.
         stored_keys = sorted({str(key).lstrip("/") for (t, op, key) in first.trace if op == "store"})
         ntasks = len(queries)
-        op_pairs = [("store", "store"), ("get", "store"), ("store", "get")]
+        op_pairs = [("store", "store"), ("get", "store")]
         if stats.get("tier") == "thorough":
-            op_pairs += [("store_metadata", "store"), ("store", "store_metadata"), ("get", "store_metadata"), ("remove", "store"), ("store", "remove")]
+            op_pairs += [("store", "get"), ("store_metadata", "store"), ("store", "store_metadata"), ("get", "store_metadata"), ("remove", "store"), ("store", "remove")]
         for K in stored_keys:
           for (opa, opb) in op_pairs:
             for a in range(ntasks):
@@ -289,7 +293,7 @@ def run_scenario(env, kind, scenario, scratch, bound, budget, viol, stats, only_
 
         # third family (three tasks): a is stopped k points inside its store of K, b is run up to (not into) its own store
         # of K - it has then filed the final metadata of its evaluation - and c runs to completion in that window
-        if file_backed and ntasks == 3:
+        if file_backed and ntasks == 3 and (stats.get("tier") == "thorough" or kind in ("file", "store_file_nested")):
             import itertools
 
             for K in stored_keys:
